@@ -36,6 +36,14 @@ CHECKS = {
             'Trusted: the projection rules (listed in the evidence under coverage.info), the harness framing parser, zlib/lz4. Domain restrictions are '
             'listed in the evidence. Known finding: XML changeset id 2^32-1 (pinned by a shipped unit test).',
             'DESIGN.md section 2 C01'),
+    'C18': ('exploration', 'exhaustive/strided enumeration of fixed-point latitudes/longitudes with direct evaluation of the stated inequalities (-O2 and ASan/UBSan builds)',
+            'Every fixed-point latitude in [-90,90] (1.8e9 values, thorough tier; random-offset stride 1009 plus complete +-10^4 neighbourhoods of 0, +-78, '
+            '+-85.05, +-MERCATOR_MAX_LAT, +-89.99, +-90 in quick) and a dense longitude grid incl. exactly +-180: round trip to the same fixed-point value, '
+            'fast formula within 1 cm and 1/4 local step of the tangent formula, strict monotonicity, and for zoom 0..30 tile range, never decreasing east/south, '
+            'parent/child containment, through both Tile constructors.',
+            'Trusted: long double reference formulas in the harness. Round trip/monotonicity/accuracy vs the canonical formula are judged inside the documented domain '
+            '|lat| <= MERCATOR_MAX_LAT; tile clauses for every valid location incl. poles.',
+            'DESIGN.md section 2 C18'),
 }
 
 NOT_YET = 'check not built yet (work in progress, see DESIGN.md section 6)'
